@@ -394,6 +394,10 @@ func runCfgHash(a Args) *Result {
 			}
 			res.Evaluations++
 		}
+		// one long-lived manager (a coordinator or sidecar that is reloaded, not restarted): after every
+		// reload its hash has to be the hash a fresh process computes for the same content
+		longLived := prom.NewConfigManager()
+		_ = longLived.ReloadFromRaw([]byte(baseText))
 		for _, e := range cfgEdits() {
 			k2 := k
 			e.Apply(&k2)
@@ -404,6 +408,16 @@ func runCfgHash(a Args) *Result {
 			h := addDump(t2)
 			if h == "" {
 				continue
+			}
+			for step, tx := range []struct{ text, want string }{{t2, h}, {baseText, h0}} {
+				if err := longLived.ReloadFromRaw([]byte(tx.text)); err == nil {
+					res.count("long_lived_reloads")
+					if got := longLived.ConfigInfo().ConfigHash; got != tx.want {
+						res.ImplViol = capViol(res.ImplViol, Violation{Property: "C16", Clause: "history", Signature: "C16/history/" + strings.ReplaceAll(e.Name, " ", "-"),
+							What: fmt.Sprintf("a manager that is reloaded (edit: %s, step %d) reports hash %s, a fresh process computes %s for the same content: the hash depends on what was loaded before", e.Name, step, got, tx.want),
+							Case: map[string]interface{}{"case": map[string]string{"edit": e.Name, "a": baseText, "b": t2}, "observed": map[string]string{"reloaded": got, "fresh": tx.want}}}, 2)
+					}
+				}
 			}
 			pairs++
 			res.Evaluations++
